@@ -45,9 +45,12 @@ type hspec struct {
 	// errReturned: the helper documents that error replies are returned as
 	// errors (it is built on UnmarshalIQ / IterIQ), so oracle clause 4 applies.
 	errReturned bool
-	joined      bool // needs a joined muc.Channel
-	nmsgs       int  // history: up to this many archive messages precede the reply
-	variants    int  // helper specific way of consuming the response (SendIQ: none/one/all tokens)
+	// ownErrPath: the helper looks at error replies itself instead of leaving
+	// them to UnmarshalIQ / IterIQ (larger <error/> trees are enumerated).
+	ownErrPath bool
+	joined     bool // needs a joined muc.Channel
+	nmsgs      int  // history: up to this many archive messages precede the reply
+	variants   int  // helper specific way of consuming the response (SendIQ: none/one/all tokens)
 	// call runs the helper in the application thread, consumes the value the way
 	// the documentation tells a caller to (drains and closes iterators, closes
 	// responses) and returns the helper's error (for iterators: Err(), else the
@@ -335,7 +338,7 @@ func plan(c *nd.Ctx, h *hspec, bd hbounds) (p planned, ok bool) {
 	case clError:
 		p.typ = "error"
 		budget := bd.err
-		if !h.errReturned {
+		if h.ownErrPath {
 			budget = bd.errAll
 		}
 		g := &hgen{c: c, p: errPkg, left: budget}
@@ -407,7 +410,9 @@ func plan(c *nd.Ctx, h *hspec, bd hbounds) (p planned, ok bool) {
 		p.body = renderNodes(ns, nodes)
 		p.desc = "header"
 	}
-	for i := 0; i < h.nmsgs; i++ {
+	// (archive messages only around the plain replies of each class: the two
+	// dimensions are independent in the code under test)
+	for i := 0; i < h.nmsgs && p.nodes == 0; i++ {
 		k := c.Choose(1+len(archivePool), "archive-message")
 		if k == 0 {
 			break
